@@ -156,25 +156,30 @@ def parameterized_call(ctx, cr):
             if sid == neg and val[0] == "bool":
                 return st.mon.set(neg=val[1])
             return None
-    h = H(cr, track_records=False)
-    a = ai.AI(cr, h, max_states=400000)
-    try:
-        a.run(key, mon=Mon())
-    except ai.Undecided as e:
-        ctx.ob(rule, rule + ":eval_parameterized_rule_call", False, "undecided %s" % e, fn=f)
-        return
-    ctx.states += a.n_states
+    # the call clause is given with its prefix-negation flag concrete (one run per value), so the table does not depend on how the code
+    # consumes the flag (branch, xor, match on a pair); whether the flag is consumed at all shows as equal rows for both values
+    GNC = "rules::exprs::GuardNamedRuleClause"
+    pf = [x["name"] for x in cr.adts[PN]["variants"][0]["fields"]]
+    gf = [x["name"] for x in cr.adts[GNC]["variants"][0]["fields"]] if GNC in cr.adts else []
     rows = {}
-    unread = 0
-    for v, mon, tr in h.results:
-        kind, s = S.ret_status(v)
-        ch = mon.get("child", frozenset())
-        if kind != "ok" or len(ch) != 1 or "Err" in ch:
-            continue
-        if mon.get("neg") is None:
-            unread += 1
-            continue
-        rows.setdefault((next(iter(ch)), mon.get("neg")), set()).add(s)
+    for negv in (False, True):
+        h = H(cr, track_records=False)
+        a = ai.AI(cr, h, max_states=400000)
+        gnc = ("enum", GNC, 0, tuple(("bool", negv) if n_ == "negation" else ("sym", "arg1*.named_rule.%s" % n_) for n_ in gf))
+        pnv = ("enum", PN, 0, tuple(gnc if n_ == "named_rule" else ("sym", "arg1*.%s" % n_) for n_ in pf))
+        try:
+            a.run(key, args=[("ref", ("X", "CALL"), ())] + [None] * (f["argc"] - 1), mon=Mon(), ext={"CALL": pnv})
+        except ai.Undecided as e:
+            ctx.ob(rule, rule + ":eval_parameterized_rule_call", False, "undecided %s" % e, fn=f)
+            return
+        ctx.states += a.n_states
+        for v, mon, tr in h.results:
+            kind, s = S.ret_status(v)
+            ch = mon.get("child", frozenset())
+            if kind != "ok" or len(ch) != 1 or "Err" in ch:
+                continue
+            rows.setdefault((next(iter(ch)), negv), set()).add(s)
+    unread = 1 if rows and all(rows.get((st_, False)) == rows.get((st_, True)) for st_ in S.NAMES) else 0
     ctx.ob(rule, rule + ":eval_parameterized_rule_call:reads-negation", unread == 0 and bool(rows),
            "the status of a parameterised rule call is returned without reading the clause's prefix negation (%d paths): `not f(args)` behaves like `f(args)`" % unread, fn=f)
     for st_ in S.NAMES:
